@@ -310,6 +310,30 @@ def oracle(case, obs):
         if oc != c[3]:
             shown = "unparsable " + o[3].hex() if oc is None else oc.hex()
             if t in SHAPES:
+                pre, names, post = SHAPES[t]
+                p = a[4] + pre
+                pos = list(range(a[4], a[4] + pre))
+                for _ in range(names):
+                    q = p
+                    while 0 < buf[q] < 64:          # label content bytes inside the rdata are opaque bytes too
+                        pos += range(q + 1, q + 1 + buf[q]); q += 1 + buf[q]
+                    p += ref_name(buf, p)[1]
+                pos += range(p, p + post)
+                # a numeric byte can only be mistaken for a pointer if, with the byte after it, it targets an offset inside the message
+                if not any(buf[i] >= 0xC0 and i + 1 < len(buf) and (((buf[i] & 0x3F) << 8) | buf[i + 1]) < len(buf) for i in pos):
+                    # no pointer-lookalike among the non-name bytes: the names themselves were not carried over
+                    raw = a[3]
+                    ptrs = [i for i in range(len(raw) - 1) if raw[i] >= 0xC0]
+                    short = [i for i in ptrs if (((raw[i] & 0x3F) << 8) | raw[i + 1]) < len(buf)
+                             and buf[((raw[i] & 0x3F) << 8) | raw[i + 1]] == 0]
+                    if len(ptrs) >= 2 and (short or nonascii_or_ace(buf)):
+                        return [{"key": "rdata-later-pointer-misplaced",
+                                 "what": f"type {t} rdata {a[3].hex()} has two compression pointers and the first resolves to the root name or an IDN "
+                                         f"name: decompress_size += len(rr_name) counts characters of the decoded str, not bytes, so the second "
+                                         f"expansion lands at the wrong place ({shown}): {case['buf']}"}]
+                    return [{"key": "rdata-name-compression-broken",
+                             "what": f"type {t} rdata {a[3].hex()} (no numeric byte pair that could resolve as a pointer) forwarded as {shown}: the reference decoder "
+                                     f"no longer reads the same names (dangling or unexpanded pointer): {case['buf']} -> {s['ok']}"}]
                 return [{"key": "name-rdata-numeric-bytes-rewritten",
                          "what": f"type {t} rdata {a[3].hex()} forwarded as {shown} (a non-name byte >= 0xC0 taken for a pointer): {case['buf']}"}]
             if t in RAW_COMPRESSIBLE:
